@@ -1,7 +1,8 @@
-Require Import DS.Base DS.FlowTables DS.FlowScan DS.Flow DS.FlowTree DS.FlowFn DS.FlowFnTree DS.FlowFnDom.
+Require Import DS.Base DS.FlowTables DS.FlowScan DS.Flow DS.FlowTree DS.FlowFn DS.FlowFnTree DS.FlowFnDom DS.FlowFnC DS.FlowFnCTree.
 Require Import ExtrOcamlBasic.
 Extraction Language OCaml.
 Extraction "../ocaml/gen/c05_model.ml" N.of_nat N.to_nat Z.of_N Z.to_N
   compile_prog prog_run frun_program frender wf_prog known_f6 world0 tables_wf
   n_if n_elseif n_else n_endif n_while n_endwhile n_for n_endfor openers closers
-  n_function n_endfunction n_return fn_closers ordered_prog fn_tables_ok.
+  n_function n_endfunction n_return fn_closers ordered_prog fn_tables_ok
+  compile_cprog cprog_run crun_program wf_cprog cknown_f6 corner_prog has_cond_calls lower_prog.
